@@ -1,7 +1,7 @@
 #!/bin/bash
 # usage: verify_seed.sh <PROP> <k>   -- confirms a sub-agent's seeded defect in its scratch worktree /tmp/seed/<PROP>
 # 1. clean tree: demo passes   2. patched: builds, suite passes (except annotation_count), demo fails   3. restore
-P=$1; K=$2; W=/tmp/seed/$P; S=$W/_seed
+P=$1; K=$2; W=${SEED_ROOT:-/tmp/seed}/$P; S=$W/_seed
 cd $W || exit 9
 export CARGO_NET_OFFLINE=true
 git checkout -q -- src; rm -f tests/verif_demo.rs
@@ -11,7 +11,7 @@ cargo test --offline --test verif_demo > $S/verify$K.clean.log 2>&1; C=$?
 echo "clean demo rc=$C"
 git apply $S/patch$K.diff || { echo "PATCH DOES NOT APPLY"; exit 8; }
 echo "== patched: suite"
-mv tests/verif_demo.rs /tmp/seed/verif_demo_$P.rs; cargo test --offline --no-fail-fast > $S/verify$K.suite.log 2>&1; mv /tmp/seed/verif_demo_$P.rs tests/verif_demo.rs
+mv tests/verif_demo.rs /tmp/verif_demo_$P.rs; cargo test --offline --no-fail-fast > $S/verify$K.suite.log 2>&1; mv /tmp/verif_demo_$P.rs tests/verif_demo.rs
 FAILED=$(grep -E "^test .* FAILED$" $S/verify$K.suite.log | grep -v "verif_demo\|^test demo\|annotation_count" | sort -u)
 echo "suite failures other than annotation_count/demo: [$FAILED]"
 echo "== patched: demo must fail"
